@@ -1,19 +1,22 @@
 // Command dualb58 is a one-off workload generator for C01/C02: it searches
 // 20-byte hashes whose CashAddr payload string (bare, lower case, as the
 // specification prescribes it for a given prefix and type) is ALSO a valid
-// Base58Check string - a string that is valid under two formats at once
-// (about 1.4e-10 per hash: no '0' or 'l' among the 42 characters, then a 32-bit
-// checksum coincidence).  Output: props/dualb58_table.go.  Every entry is
-// re-verified by the references before it is used.
+// Base58Check string - a string that is valid under two formats at once.
+// The 34 payload symbols are drawn from the characters that are Base58 digits
+// as well (everything but '0' and 'l'), the eight checksum symbols must fall
+// into that set by themselves (0.6), and then the 32-bit Base58Check checksum
+// must match: about 7e9 candidates per witness.  Output:
+// props/dualb58_table.go.  Every entry is re-verified by the references
+// before it is used.
 //
 //	go run ./cmd/dualb58 > props/dualb58_table.go
 package main
 
 import (
 	"crypto/sha256"
-	"encoding/binary"
 	"fmt"
 	"math/big"
+	"math/bits"
 	"os"
 	"runtime"
 	"strings"
@@ -25,44 +28,149 @@ import (
 
 const b58 = "123456789ABCDEFGHJKLMNPQRSTUVWXYZabcdefghijkmnopqrstuvwxyz"
 
+var gen = [5]uint64{0x98f2bc8e61, 0x79b76d99e2, 0xf33e5fb3c4, 0xae2eabe2a8, 0x1e4f43e470}
+
+func step(c uint64, d byte) uint64 {
+	c0 := byte(c >> 35)
+	c = (c&0x07ffffffff)<<5 ^ uint64(d)
+	for i := 0; i < 5; i++ {
+		if c0>>uint(i)&1 == 1 {
+			c ^= gen[i]
+		}
+	}
+	return c
+}
+
 func search(prefix string, typ int) []byte {
 	var found atomic.Bool
 	var res []byte
 	var mu sync.Mutex
 	var wg sync.WaitGroup
-	radix := big.NewInt(58)
+	var b58idx [32]uint64 // CashAddr symbol -> Base58 digit (0 and 31 are not digits)
+	for v := 0; v < 32; v++ {
+		b58idx[v] = uint64(strings.IndexByte(b58, ref.CashCharset[v]))
+	}
+	allowed := []byte{}
+	for v := byte(0); v < 32; v++ {
+		if v != 15 && v != 31 {
+			allowed = append(allowed, v)
+		}
+	}
+	lastAllowed := []byte{0, 4, 8, 12, 16, 20, 24, 28}
+	p14 := new(big.Int).Exp(big.NewInt(58), big.NewInt(14), nil)
 	for w := 0; w < runtime.NumCPU(); w++ {
 		wg.Add(1)
 		go func(w int) {
 			defer wg.Done()
-			h := make([]byte, 20)
-			x := new(big.Int)
-			t := new(big.Int)
-			for ctr := uint64(w) << 48; !found.Load(); ctr++ {
-				binary.LittleEndian.PutUint64(h[0:], ctr*0x9e3779b97f4a7c15)
-				binary.LittleEndian.PutUint64(h[8:], ctr^0xdeadbeefcafef00d)
-				binary.LittleEndian.PutUint32(h[16:], uint32(ctr>>7))
-				s := ref.CashEncode(prefix, typ, h)
-				if strings.ContainsAny(s, "0l") {
-					continue
+			seed := uint64(w+1)*0x9e3779b97f4a7c15 ^ uint64(typ)<<40 ^ uint64(len(prefix))<<48
+			rnd := func() uint64 {
+				seed ^= seed << 13
+				seed ^= seed >> 7
+				seed ^= seed << 17
+				return seed
+			}
+			sym := make([]byte, 42)
+			for !found.Load() {
+				// fixed part: symbols 0..27
+				sym[0] = byte(typ) // version byte >> 3 = type
+				sym[1] = byte(rnd() % 4)
+				for j := 2; j < 28; j++ {
+					sym[j] = allowed[rnd()%30]
 				}
-				x.SetInt64(0)
-				for i := 0; i < len(s); i++ {
-					t.SetInt64(int64(strings.IndexByte(b58, s[i])))
-					x.Mul(x, radix)
-					x.Add(x, t)
+				c := uint64(1)
+				for _, d := range ref.CashPrefixExpand(prefix) {
+					c = step(c, d)
 				}
-				b := x.Bytes() // no leading '1' possible: the first character is q or p
-				if len(b) < 5 {
-					continue
+				for j := 0; j < 28; j++ {
+					c = step(c, sym[j])
 				}
-				d := sha256.Sum256(b[:len(b)-4])
-				d = sha256.Sum256(d[:])
-				if d[0] == b[len(b)-4] && d[1] == b[len(b)-3] && d[2] == b[len(b)-2] && d[3] == b[len(b)-1] {
-					if found.CompareAndSwap(false, true) {
-						mu.Lock()
-						res = append([]byte{}, h...)
-						mu.Unlock()
+				// Base58 value of the first 28 characters times 58^14
+				hiv := new(big.Int)
+				for j := 0; j < 28; j++ {
+					hiv.Mul(hiv, big.NewInt(58))
+					hiv.Add(hiv, big.NewInt(int64(b58idx[sym[j]])))
+				}
+				hiv.Mul(hiv, p14)
+				var base [32]byte
+				hiv.FillBytes(base[:])
+				var b0, b1, b2, b3 uint64
+				b0 = be64(base[24:])
+				b1 = be64(base[16:])
+				b2 = be64(base[8:])
+				b3 = be64(base[0:])
+				var idx [6]int
+				for n := 0; n < 30*30*30*30*30*8 && !found.Load(); n++ {
+					// odometer over symbols 28..33
+					x := n
+					for j := 0; j < 5; j++ {
+						idx[j] = x % 30
+						x /= 30
+					}
+					idx[5] = x % 8
+					cc := c
+					for j := 0; j < 5; j++ {
+						sym[28+j] = allowed[idx[j]]
+						cc = step(cc, sym[28+j])
+					}
+					sym[33] = lastAllowed[idx[5]]
+					cc = step(cc, sym[33])
+					for j := 0; j < 8; j++ {
+						cc = step(cc, 0)
+					}
+					cc ^= 1
+					ok := true
+					for j := 0; j < 8; j++ {
+						d := byte(cc >> uint(5*(7-j)) & 31)
+						if d == 15 || d == 31 {
+							ok = false
+							break
+						}
+						sym[34+j] = d
+					}
+					if !ok {
+						continue
+					}
+					// low = value of the last 14 characters (fits 128 bits)
+					var lo, hi uint64
+					for j := 28; j < 42; j++ {
+						h1, l1 := bits.Mul64(lo, 58)
+						hi = hi*58 + h1
+						lo = l1
+						var cy uint64
+						lo, cy = bits.Add64(lo, b58idx[sym[j]], 0)
+						hi += cy
+					}
+					var r [4]uint64
+					var cy uint64
+					r[0], cy = bits.Add64(b0, lo, 0)
+					r[1], cy = bits.Add64(b1, hi, cy)
+					r[2], cy = bits.Add64(b2, 0, cy)
+					r[3], _ = bits.Add64(b3, 0, cy)
+					var out [32]byte
+					put64(out[0:], r[3])
+					put64(out[8:], r[2])
+					put64(out[16:], r[1])
+					put64(out[24:], r[0])
+					k := 0
+					for k < 32 && out[k] == 0 {
+						k++
+					}
+					b := out[k:]
+					if len(b) < 5 {
+						continue
+					}
+					d := sha256.Sum256(b[:len(b)-4])
+					d = sha256.Sum256(d[:])
+					if d[0] == b[len(b)-4] && d[1] == b[len(b)-3] && d[2] == b[len(b)-2] && d[3] == b[len(b)-1] {
+						raw, err := ref.Unpack5to8(sym[:34])
+						if err != nil || len(raw) != 21 {
+							continue
+						}
+						if found.CompareAndSwap(false, true) {
+							mu.Lock()
+							res = append([]byte{}, raw[1:]...)
+							mu.Unlock()
+						}
 					}
 				}
 			}
@@ -72,6 +180,16 @@ func search(prefix string, typ int) []byte {
 	return res
 }
 
+func be64(b []byte) uint64 {
+	return uint64(b[0])<<56 | uint64(b[1])<<48 | uint64(b[2])<<40 | uint64(b[3])<<32 | uint64(b[4])<<24 | uint64(b[5])<<16 | uint64(b[6])<<8 | uint64(b[7])
+}
+
+func put64(b []byte, v uint64) {
+	for i := 0; i < 8; i++ {
+		b[i] = byte(v >> uint(56-8*i))
+	}
+}
+
 func main() {
 	fmt.Print("// Code generated by cmd/dualb58; DO NOT EDIT.\n\npackage props\n\n")
 	fmt.Println("// dualB58 lists hashes whose CashAddr payload string under Prefix and type Typ (0 = P2PKH, 1 = P2SH) is\n// also a valid Base58Check string.")
@@ -79,10 +197,16 @@ func main() {
 	for _, e := range []struct {
 		p string
 		t int
-	}{{"bitcoincash", 0}, {"bitcoincash", 1}, {"bchtest", 0}, {"bchreg", 1}} {
+	}{{"bitcoincash", 0}, {"bchtest", 1}, {"bitcoincash", 1}, {"bchreg", 0}} {
 		h := search(e.p, e.t)
+		// self-check against the reference encoder
+		s := ref.CashEncode(e.p, e.t, h)
+		if _, _, ok := ref.B58CheckDecode(s); !ok {
+			fmt.Fprintf(os.Stderr, "%s/%d: witness does not verify (%s)\n", e.p, e.t, s)
+			continue
+		}
 		fmt.Printf("\t{%q, %d, \"%x\"},\n", e.p, e.t, h)
-		fmt.Fprintf(os.Stderr, "%s/%d done\n", e.p, e.t)
+		fmt.Fprintf(os.Stderr, "%s/%d done: %s\n", e.p, e.t, s)
 	}
 	fmt.Println("}")
 }
